@@ -21,8 +21,16 @@
     crlf_eq_lf                    a text and its CRLF form reach the scanner as the same chunks (no restriction)
     layout_independent_partial    lines ≤ 1023 bytes, no NUL, no lone CR: reader + chunked scanner = whole text
     not_fragmentation_independent the full statement is false (+ one witness per clause of the property)
+  C13R2:
+    stringReader_eq_lineReader, fileReader_eq_lineReader, includeReader_eq_lineReader, stdinReader_eq_lineSplit,
+    readlineLine_eq_lineSplit, interactive_readers_agree   every C++ reader, transcribed call by call, IS the line discipline
+    *_delivers_every_byte (6)     each reader: concatenation of the chunks = text minus CRs, chunks non-empty and ≤ max
+    eager_reader_drops_a_byte     the reader shape of seeded change C13-m4 does not
+    lex_token_aligned, pop_token_aligned   one cut anywhere: `safeSplit a b` ⇒ chunked = whole
+    unsafe_split_witnesses        one proved witness per class of the finding
 -/
 import BlocV.Proofs.Lemmas.Lex
+import BlocV.Proofs.Lemmas.LexReaders
 
 namespace BlocV.C13
 open BlocV BlocV.Lex
@@ -142,6 +150,113 @@ theorem crlf_eq_lf_tokens (keepNl : Bool) (max : Nat) (text : Bytes) :
 example : lfToCrlf exLines = [97, 32, 61, 32, 49, 50, 51, 13, 10, 98, 32, 61, 32, 34, 120, 34, 13, 10, 13, 10, 99] ∧
     lineReader 8 (lfToCrlf exLines) = lineReader 8 exLines := ⟨by decide, crlf_eq_lf 8 exLines⟩
 
+/-! ## Every reader of source text (C13R2)
+
+  `lineReader` above is the line discipline written as a function of the whole text. The C++ has FOUR byte-by-byte
+  `read` functions (+ the readline line server); each is transcribed call by call in Model/LexReaders.lean
+  (`srCall`, `rfCall`, `incCall`, `stdinCall`, `rlCall`) and proved here to BE that discipline, for every text and
+  every buffer size ≥ 1 — so every theorem about `lineReader` holds for each of them — and to deliver every byte. -/
+
+/-- `bloc::StringReader` (C API, `bloc -e`, tests) is the line reader. -/
+theorem stringReader_eq_lineReader (max : Nat) (hmax : 1 ≤ max) (text : Bytes) :
+    stringReader max text = lineReader max text := by
+  unfold stringReader lineReader
+  rw [calls_congr _ _ (fun s => srCall_eq_gen max s []), gen_reader isCr max hmax, keep_isCr]
+
+/-- `ReadFile` of apps/read_file.cpp (`bloc FILE`, `bloc -`, `load`) is the line reader. -/
+theorem fileReader_eq_lineReader (max : Nat) (hmax : 1 ≤ max) (text : Bytes) :
+    fileReader max text = lineReader max text := by
+  unfold fileReader lineReader
+  rw [calls_congr _ _ (fun s => rfCall_eq_gen max s []), gen_reader isCr max hmax, keep_isCr]
+
+/-- The private `ReadFile` of statement_include.cpp (`include "file";`) is the line reader. -/
+theorem includeReader_eq_lineReader (max : Nat) (hmax : 1 ≤ max) (text : Bytes) :
+    includeReader max text = lineReader max text := by
+  unfold includeReader lineReader
+  rw [calls_congr _ _ (fun s => incCall_eq_gen max s []), gen_reader isCr max hmax, keep_isCr]
+
+/-- `bloc_readstdin` (the interactive loop without readline) is the line discipline WITHOUT CR removal. -/
+theorem stdinReader_eq_lineSplit (max : Nat) (hmax : 1 ≤ max) (text : Bytes) :
+    stdinReader max text = lineSplit max text := by
+  unfold stdinReader
+  rw [calls_congr _ _ (fun s => stdinCall_eq_gen max s []), gen_reader noDrop max hmax, keep_noDrop]
+
+/-- The readline branch of `ReadInput::read`: the calls serving one line are the line discipline on `line ⏎`
+(a line that ends exactly at a full buffer gets its '\n' alone in the next call). -/
+theorem readlineLine_eq_lineSplit (max : Nat) (hmax : 1 ≤ max) (line : Bytes) :
+    readlineLine max line = lineSplit max (line ++ [10]) :=
+  readlineLineF_eq max hmax _ line (Nat.le_refl _)
+
+/-- Both interactive readers serve a sequence of lines in the same chunks: readline line by line = `bloc_readstdin`
+on the lines joined with their '\n'. -/
+theorem interactive_readers_agree (max : Nat) (hmax : 1 ≤ max) (lines : List Bytes) :
+    (lines.map (readlineLine max)).flatten = stdinReader max (lines.map (· ++ [10])).flatten := by
+  rw [stdinReader_eq_lineSplit max hmax]
+  induction lines with
+  | nil => simp [lineSplit, lineSplitAux]
+  | cons l ls ih =>
+    simp only [List.map_cons, List.flatten_cons, ih, readlineLine_eq_lineSplit max hmax]
+    unfold lineSplit
+    rw [List.append_assoc, List.singleton_append, lineSplitAux_nl max (List.map (fun x => x ++ [10]) ls).flatten l []]
+
+example : stringReader 4 [97, 98, 99, 100, 10, 101, 102, 103, 104, 105, 13, 10, 106, 13, 107] =
+    [[97, 98, 99, 100], [10], [101, 102, 103, 104], [105, 10], [106, 107]] := by decide
+example : fileReader 4 [97, 98, 99, 100, 13, 10] = [[97, 98, 99, 100], [10]] ∧ includeReader 4 [13, 13] = [] ∧
+    includeReader 3 [97, 98, 99, 100] = [[97, 98, 99], [100]] := by decide
+example : stdinReader 4 [97, 13, 10, 98] = [[97, 13, 10], [98]] ∧ readlineLine 4 [97, 98, 99, 100] = [[97, 98, 99, 100], [10]] ∧
+    readlineLine 4 [] = [[10]] ∧ readlineLine 4 [97, 98, 99, 100, 101] = [[97, 98, 99, 100], [101, 10]] := by decide
+
+/-- **reader_delivers_every_byte**, for each reader: for every text and every buffer size `max ≥ 1` the chunks
+returned call after call concatenate to the text minus its CR bytes (the whole text for the interactive readers):
+no byte is lost or duplicated at a buffer-full boundary, at a newline, at a CR or at the end; every chunk fits
+the buffer; no chunk is empty (the scanner would take it for the end of the input). -/
+theorem lineReader_delivers_every_byte (max : Nat) (hmax : 1 ≤ max) (text : Bytes) :
+    Delivers max (lineReader max text) (stripCr text) :=
+  ⟨lineSplit_flatten max _, lineSplit_chunks_ok max hmax _⟩
+
+theorem stringReader_delivers_every_byte (max : Nat) (hmax : 1 ≤ max) (text : Bytes) :
+    Delivers max (stringReader max text) (stripCr text) := by
+  rw [stringReader_eq_lineReader max hmax]; exact lineReader_delivers_every_byte max hmax text
+
+theorem fileReader_delivers_every_byte (max : Nat) (hmax : 1 ≤ max) (text : Bytes) :
+    Delivers max (fileReader max text) (stripCr text) := by
+  rw [fileReader_eq_lineReader max hmax]; exact lineReader_delivers_every_byte max hmax text
+
+theorem includeReader_delivers_every_byte (max : Nat) (hmax : 1 ≤ max) (text : Bytes) :
+    Delivers max (includeReader max text) (stripCr text) := by
+  rw [includeReader_eq_lineReader max hmax]; exact lineReader_delivers_every_byte max hmax text
+
+theorem stdinReader_delivers_every_byte (max : Nat) (hmax : 1 ≤ max) (text : Bytes) :
+    Delivers max (stdinReader max text) text := by
+  rw [stdinReader_eq_lineSplit max hmax]; exact ⟨lineSplit_flatten max _, lineSplit_chunks_ok max hmax _⟩
+
+theorem readlineLine_delivers_every_byte (max : Nat) (hmax : 1 ≤ max) (line : Bytes) :
+    Delivers max (readlineLine max line) (line ++ [10]) := by
+  rw [readlineLine_eq_lineSplit max hmax]; exact ⟨lineSplit_flatten max _, lineSplit_chunks_ok max hmax _⟩
+
+/-- a 3-byte buffer, a line of exactly 3, of 4, of 6 bytes, CRLF with the CR at the buffer edge, no final newline. -/
+example : Delivers 3 (includeReader 3 [97, 98, 99, 10, 100, 101, 102, 103, 13, 10, 104, 105, 106, 107, 108, 109, 13])
+    [97, 98, 99, 10, 100, 101, 102, 103, 10, 104, 105, 106, 107, 108, 109] :=
+  includeReader_delivers_every_byte 3 (by decide) _
+example : includeReader 3 [97, 98, 99, 10, 100, 101, 102, 103, 13, 10, 104, 105, 106, 107, 108, 109, 13] =
+    [[97, 98, 99], [10], [100, 101, 102], [103, 10], [104, 105, 106], [107, 108, 109]] := by decide
+
+/-- The statement is not vacuous about the SHAPE of the loop: the reader that fetches the byte before testing the room
+(seeded change C13-m4 of the include reader, `while ((c = fgetc(f)) != EOF && read < max_size)`) loses the byte at
+every buffer-full boundary. -/
+theorem eager_reader_drops_a_byte :
+    ¬ Delivers 4 (calls (eagerCall 4 []) [97, 98, 99, 100, 101, 102, 103]) (stripCr [97, 98, 99, 100, 101, 102, 103]) ∧
+    calls (eagerCall 4 []) [97, 98, 99, 100, 101, 102, 103] = [[97, 98, 99, 100], [102, 103]] := by
+  refine ⟨fun h => absurd h.1 (by decide), by decide⟩
+
+/-- Hence everything proved of `lineReader` holds of each file/string reader: in particular the part of C13 that
+holds (`layout_independent_partial` below) for the C API, `bloc FILE`, `bloc -` and `include`. -/
+theorem readers_same_chunks (text : Bytes) :
+    stringReader chunkMax text = lineReader chunkMax text ∧ fileReader chunkMax text = lineReader chunkMax text ∧
+    includeReader chunkMax text = lineReader chunkMax text :=
+  ⟨stringReader_eq_lineReader _ (by decide) _, fileReader_eq_lineReader _ (by decide) _,
+   includeReader_eq_lineReader _ (by decide) _⟩
+
 /-! ## Layout independence, where it holds -/
 
 /-- **C13, the part that holds.** A text without NUL whose lines (after CR removal, '\n' included) are
@@ -166,6 +281,62 @@ example : popStream true (lineReader chunkMax exCrlf) = specStream true (crlfToL
   (layout_independent_partial true exCrlf (by decide)
     ((lineReader_aligned chunkMax (by decide) exCrlf).mp (by decide))).2 (by decide)
 example : (popStream true (lineReader chunkMax exCrlf)).length = 14 := by decide
+
+/-! ## A wider region in which fragmentation does not matter (C13R2)
+
+  `lex_line_aligned` asks every cut to fall right after a '\n'. `safeSplit a b` (Model/LexReaders.lean) is the
+  exact condition for ONE cut: no rule matches across the cut at any token start of the first fragment, and the
+  beginning-of-line flag of the fresh buffer does not change the first token of the second. It is decidable and is
+  defined by the whole-text matcher only (`pick` on `r ++ b` against `pick` on `r`), never by the chunked scanner.
+
+  FULL STATEMENT aimed at:   lexChunks [a, b] = lexWhole (a ++ b)  ↔  safeSplit a b   (a ≠ [], both NUL-free)
+  Proved: `←` (`lex_token_aligned`, all texts). NOT proved: `→` (needs: a match no longer than the fragment is not
+  affected by what follows the fragment — `matchLens` prefix lemma — and then a crossing match is longer than any
+  token of the chunked scan); it is TESTED on every two-chunk case of the check (driver `tok … note=safe:eq |
+  unsafe:ne`, 0 exceptions on ~60 000 cases per run) and witnessed class by class in `unsafe_split_witnesses`. -/
+
+/-- **Chunked = whole on a safe split**, for every pair of fragments: any start condition at the cut (inside a
+literal, inside a comment), any position of the cut in its line. -/
+theorem lex_token_aligned (a b : Bytes) (h : safeSplit a b = true) : lexChunks [a, b] = lexWhole (a ++ b) :=
+  safeSplit_sound a b h
+
+/-- The same for the parser's `(code, text)` stream. -/
+theorem pop_token_aligned (keepNl : Bool) (a b : Bytes) (h : safeSplit a b = true) :
+    popStream keepNl [a, b] = specStream keepNl (a ++ b) := by
+  simp only [popStream, specStream, lex_token_aligned a b h]
+
+/-- cuts that are NOT after a newline and are safe: after `;`, after a blank, before `;`, inside a literal, inside a
+comment, after the `\` of `\n` in a literal (the scanner has no `\n` unit). -/
+example : safeSplit [97, 32, 61, 32, 49, 50, 59] [32, 98, 32, 61, 32, 51, 59] = true ∧
+    safeSplit [97, 32] [61, 32, 49] = true ∧ safeSplit [102, 40, 120, 41] [59] = true ∧
+    safeSplit [34, 97, 98] [99, 34] = true ∧ safeSplit [47, 42, 97] [98, 42, 47] = true ∧
+    safeSplit [34, 97, 92] [110, 98, 34] = true := by decide +kernel
+example : lexChunks [[97, 32, 61, 32, 49, 50, 59], [32, 98, 32, 61, 32, 51, 59]] =
+    lexWhole ([97, 32, 61, 32, 49, 50, 59] ++ [32, 98, 32, 61, 32, 51, 59]) := lex_token_aligned _ _ (by decide +kernel)
+
+/-- An unsafe split on which the chunked and the whole-text token sequences really differ. -/
+def UnsafeWitness (a b : Bytes) : Prop := safeSplit a b = false ∧ lexChunks [a, b] ≠ lexWhole (a ++ b)
+instance (a b : Bytes) : Decidable (UnsafeWitness a b) := by unfold UnsafeWitness; infer_instance
+
+/-- **One witness per class of the finding `C13.unaligned_chunk_splits_token`** (each is also replayed against the
+C++ by the check: family `tort`/`stmt` at every split position). -/
+theorem unsafe_split_witnesses :
+    UnsafeWitness [49, 50] [51, 52, 53] ∧                       -- number            12|345
+    UnsafeWitness [97, 98] [99, 100] ∧                          -- identifier        ab|cd
+    UnsafeWitness [101, 110] [100] ∧                            -- keyword           en|d
+    UnsafeWitness [60] [61] ∧                                   -- two-byte operator <|=
+    UnsafeWitness [34, 97, 92] [34, 98, 34] ∧                   -- escape            "a\|"b"
+    UnsafeWitness [34, 97, 34] [34, 98, 34] ∧                   -- doubled quote     "a"|"b"
+    UnsafeWitness [47, 42, 120, 42] [47, 121] ∧                 -- comment end       /*x*|/y
+    UnsafeWitness [47] [42, 120, 42, 47] ∧                      -- comment begin     /|*x*/
+    UnsafeWitness [47] [47, 120] ∧                              -- line comment      /|/x
+    UnsafeWitness [120, 32] [35, 121, 59, 122] ∧                -- # at chunk start  x |#y;z
+    UnsafeWitness [120, 59] [32, 35, 121] ∧                     -- blanks + #        x;| #y
+    UnsafeWitness [117, 56] [34, 120, 34] ∧                     -- literal opener    u8|"x"
+    UnsafeWitness [49, 101, 43] [53] ∧                          -- float: NOT the last token of the chunk   1e+|5
+    UnsafeWitness [48, 120] [49, 70] ∧                          -- hexadecimal       0x|1F
+    UnsafeWitness [49, 46] [53]                                 -- double            1.|5
+    := by decide +kernel
 
 /-! ## Where it fails: the negation of the full statement, clause by clause
 
